@@ -43,10 +43,20 @@ pub fn generate_layout(run_seed: u64, mut w: Rng, _f: Rng) -> Scenario {
   let n_providers = w.range(2, 5);
   let mut providers: Vec<(ModName, Vec<String>)> = Vec::new();
   for i in 0..n_providers {
-    let name: ModName = match w.below(3) {
+    let name: ModName = match w.below(5) {
       0 => vec![format!("P{i}")],
       1 => vec!["lib".into(), format!("Provider{i}")],
-      _ => vec!["DirectoryWithAVeryLongName".into(), format!("Provider{i}")],
+      2 => vec!["DirectoryWithAVeryLongName".into(), format!("Provider{i}")],
+      // module paths so long that the printed import line exceeds the printer's width of 100
+      3 => vec![
+        "AnExtremelyLongTopLevelDirectoryNameForProvidersOfClasses".into(),
+        format!("AProviderModuleWhoseOwnNameIsAlsoRemarkablyLongNumber{i}"),
+      ],
+      _ => vec![
+        "AnExtremelyLongTopLevelDirectoryNameForProviders".into(),
+        "AnotherVeryLongSubDirectoryNameInsideTheFirstOne".into(),
+        format!("Provider{i}WithAVeryLongModuleName"),
+      ],
     };
     let k = w.range(1, 3);
     let mut cs: Vec<String> = Vec::new();
